@@ -445,6 +445,8 @@ def emit(design, connect_order=None, connect_style=None, block_order=None):
     L += [f"class {cn}({design.get('bases', {}).get(cn, 'Component')}):", "  def construct(s):"]
     for nb in sorted(set(re.findall(r"NB(\d+)", json.dumps(c["blocks"]))), key=int):
       L.append(f"    NB{nb} = {nb}")               # closure constants used in slice bounds ( s.x[NB9-5:NB9-1] )
+    for nb in sorted(set(re.findall(r"s\.NBA(\d+)", json.dumps(c["blocks"]))), key=int):
+      L.append(f"    s.NBA{nb} = {nb}")            # ... and constant attributes ( s.x[s.NBA2:s.NBA6] )
     for sg in c["signals"]:
       if sg["list"]:
         dims = [sg["list"]] if isinstance(sg["list"], int) else list(sg["list"])
@@ -1217,6 +1219,10 @@ class Gen:
             nb = st[2] + rng.randrange(0, 4)
             lo = f"NB{nb}-{nb - st[1]}" if rng.random() < 0.5 else str(st[1])
             hi = f"NB{nb}-{nb - st[2]}" if nb > st[2] else f"NB{nb}+0"
+            if k.get("p_attr_bounds") and rng.random() < k["p_attr_bounds"]:
+              # ... or as constant ATTRIBUTES of the component ( s.x[s.NBA2:s.NBA6] )
+              lo = f"s.NBA{st[1]}" if rng.random() < 0.6 else str(st[1]); hi = f"s.NBA{st[2]}"
+              self.design.setdefault("stats", {}).setdefault("attribute_bounds_in_blocks", 0); self.design["stats"]["attribute_bounds_in_blocks"] += 1
             o["steps"] = o["steps"][:-1] + [st + [None, ["ex", lo, hi]]]
             self.design.setdefault("stats", {}).setdefault("expression_bounds_in_blocks", 0); self.design["stats"]["expression_bounds_in_blocks"] += 1
           for v in o.values(): walk2(v)
